@@ -275,7 +275,8 @@ pub fn gen_open(rng: &mut Rng) -> Vec<u8> {
 
 fn gen_tlv(rng: &mut Rng, string_only: bool) -> Vec<u8> {
     let typ: u16 = if string_only { 0 } else { *rng.pick(&[0u16, 1, 2, 3, 4, 5, 77, 65535]) };
-    let n = rng.usize(0, 12);
+    // rarely a TLV at the top of the u16 length range (position arithmetic must not be done in u16)
+    let n = if rng.chance(1, 400) { *rng.pick(&[65531usize, 65532, 65533, 65535]) } else { rng.usize(0, 12) };
     let mut v = typ.to_be_bytes().to_vec();
     v.extend((n as u16).to_be_bytes());
     v.extend(rng.bytes(n));
